@@ -621,6 +621,9 @@ class LayoutTyper(Structured):
                 D = self.shape_of(e.args[1], env)
                 if arr.kind == 'arr' and D is not None:
                     ok = arr.a == D
+                    tr_ = env.get('__trailing__')
+                    if not ok and tr_ is not None and (arr.a, D) in (tr_.a or ()):
+                        ok = True          # established on this path: the array's attributes are the trailing attributes of D, in order
                     rep('broadcast', e, ok, 'array laid out by %s broadcast to the shape of %s' % (show(arr.a), show(D)))
                     return V('arr', D if ok else ('positional', 'broadcast mismatch'), deps=arr.deps)
                 return UNK
@@ -1049,6 +1052,20 @@ class LayoutTyper(Structured):
                 if st is None:
                     return None
             return st
+        # `E.attrs[k:] == D.attrs` (k = len(E) - len(D)): D's attributes ARE the trailing attributes of E, in order - numpy broadcasting aligns
+        # trailing axes, so an array laid out by D broadcasts correctly to the shape of E
+        if truth and isinstance(t, ast.Compare) and len(t.ops) == 1 and isinstance(t.ops[0], ast.Eq):
+            for a_, b_ in ((t.left, t.comparators[0]), (t.comparators[0], t.left)):
+                if isinstance(a_, ast.Subscript) and isinstance(a_.slice, ast.Slice) and a_.slice.lower is not None and a_.slice.upper is None and a_.slice.step is None \
+                        and isinstance(a_.value, ast.Attribute) and a_.value.attr == 'attrs' and isinstance(b_, ast.Attribute) and b_.attr == 'attrs':
+                    E, D = self.dom_term(a_.value.value, st), self.dom_term(b_.value, st)
+                    from ..normalise import expand
+                    k = expand(a_.slice.lower, self.defs)
+                    kt = U(k).replace(' ', '')
+                    if E is not None and D is not None and kt == 'len(%s)-len(%s)' % (U(a_.value.value), U(b_.value)):
+                        st = dict(st)
+                        st['__trailing__'] = V('seq', frozenset(getattr(st.get('__trailing__'), 'a', frozenset()) | {(D, E)}))
+                        return st
         if isinstance(t, ast.Call) and isinstance(t.func, ast.Attribute) and t.func.attr == 'isscalar' \
                 and len(t.args) == 1 and isinstance(t.args[0], ast.Name):
             if truth:
